@@ -259,8 +259,14 @@ def mechanism_binding(pid, mech_path, selftest=False, chunk_events=40000):
     the interface by the property's own monitor)."""
     import mech as mechlib
     segs = mechlib.segments(mech_path)
+    # (a connection that burns thousands of stream ids to reach a large session id adds nothing per event
+    # but makes the model's sets large: such segments are counted, not replayed)
+    def pulls(seg):
+        return sum(1 for e in seg if e.get("ev") == "w_pull")
+    long_segs = [x for x in segs if pulls(x) > 1000]
+    segs = [x for x in segs if pulls(x) <= 1000]
     res = {"spec": "DriverTrace.tla", "connections": len(segs), "events": sum(len(x) for x in segs),
-           "accepted_connections": 0, "states": 0, "drift": []}
+           "accepted_connections": 0, "states": 0, "drift": [], "not_replayed_long_connections": len(long_segs)}
     wd = vlib.workdir("mech-" + pid)
     try:
         todo = list(segs)
